@@ -32,7 +32,25 @@ def tm_count(nwork, gamma):
     return (1 + (nwork + 2) * len(gamma) * 2) ** (nwork * len(gamma))
 
 
+# hand-written machines whose runs revisit "look-alike" configurations: the state name followed by the tape and
+# the head position reads the same for two different configurations (names q / q1 with digits on the tape; head
+# positions 1 and 10 on tapes that differ in one trailing cell).  Words are listed with each machine.
+SPECIAL = [
+    ({"kind": "tm_trans", "Q": ["q1", "p", "p2", "q", "acc", "rej"], "S": "01", "G": "01_", "q0": "q1", "qa": "acc", "qr": "rej",
+      "T": [["q1", "0", "q1", "0", "R"], ["q1", "_", "p", "_", "L"], ["p", "0", "p", "1", "R"], ["p", "_", "p2", "0", "R"],
+            ["p2", "_", "q", "_", "L"], ["q", "0", "acc", "0", "R"]]},
+     ["", "0", "1", "00", "01", "10", "000", "010"]),
+    ({"kind": "tm_trans", "Q": ["s", "r", "l", "acc", "rej"], "S": "01", "G": "01_", "q0": "s", "qa": "acc", "qr": "rej",
+      "T": [["s", "0", "s", "0", "R"], ["s", "1", "s", "1", "R"], ["s", "_", "r", "_", "R"], ["r", "_", "l", "1", "L"],
+            ["r", "1", "acc", "1", "R"], ["l", "_", "l", "_", "L"], ["l", "0", "l", "0", "L"], ["l", "1", "s", "1", "L"]]},
+     ["1" + "0" * n for n in (0, 3, 7, 8, 9, 10, 12)]),
+]
+
+
 def build(src):
+    if src["kind"] == "tm_trans":
+        return U.make_tm(src["Q"], src["S"], list(src["G"]), {(t[0], t[1]): (t[2], t[3], t[4]) for t in src["T"]},
+                         src["q0"], src["qa"], src["qr"], "_")
     if src["kind"] == "tm_code":
         return tm_from_code(src["nwork"], src["gamma"], src["code"], src.get("blank", "_"), src.get("sigma", "a"))
     if src["kind"] == "tm_rnd":
@@ -40,6 +58,13 @@ def build(src):
         blank = rng.choice(["_", "□", "B"])
         return U.random_tm(rng, rng.randint(1, 3), rng.choice(["a", "ab"]), rng.choice(["", "x", "xy"]), blank,
                            rng.choice([0.1, 0.3, 0.5]))
+    if src["kind"] == "tm_rnd01":
+        # digits as tape symbols, state names that are prefixes of each other and end in digits
+        rng = random.Random(src["seed"])
+        k = rng.randint(1, 3)
+        T = U.random_tm(rng, k, "01", rng.choice(["", "x"]), "_", rng.choice([0.1, 0.3]))
+        m = {"w0": "q", "w1": "q1", "w2": "q11", "qA": "q10", "qR": "q0"}
+        return U.rename_tm(T, {q: m[q] for q in T.Q})
     if src["kind"] == "tm_halting_start":
         T = tm_from_code(1, "a_", src["code"])
         T.q0 = src["q0"]
